@@ -43,3 +43,8 @@ package sonic
 //@   ensures [conn] ccInvS(c)
 //@   // only the write buffer changes (the transport is assumed not to touch our heap)
 //@   modifies fields(c.dst), memcap(c.dst.data)
+
+// The asynchronous twin of WriteNext (encode, then AsyncWriteTo with a completion closure) is
+// not under contract; callers state what they hand to it.
+//@ func (*CodecConn).AsyncWriteNext
+//@   trusted
